@@ -18,7 +18,7 @@ import subprocess
 from vlib import common, embc, syngen, textgen
 
 LEVEL = "exploration"
-CPU_BUDGET_S = 25  # logical budget (process CPU time) per compilation; largest legitimate case seen: 0.6 s
+CPU_BUDGET_S = 10  # logical budget (process CPU time) per compilation; largest legitimate case seen: 0.6 s
 
 
 def _imports(files):
@@ -160,7 +160,7 @@ def monitor_cli_inprocess(files, main, scratch):
         if isinstance(e, (KeyboardInterrupt, SystemExit)):
             raise
         et, site = embc.crash_site(e)
-        viol.append(("cli-crash:%s@%s" % (et, site), "parse_and_log_errors raised %r" % (e,)))
+        viol.append(("crash:%s@%s" % (et, site), "emboss_front_end.parse_and_log_errors (CLI helper) raised %r" % (e,)))
     for name in files:
         p = os.path.join(d, name)
         if "/" not in name and "\n" not in name and name and os.path.exists(p):
@@ -285,10 +285,16 @@ def cli_batch(arg):
                 m = re.findall(r'File ".*?/(\w+)\.py", line \d+, in (\w+)', r.stderr)
                 last = r.stderr.strip().splitlines()[-1] if r.stderr.strip() else ""
                 site = "%s.%s" % m[-1] if m else "?"
+                m2 = re.search(r"Attempting to call '(\w+)'; missing (\{[^}]*\})", last)
+                if site.startswith("traverse_ir.") and m2:
+                    site = "traverse_ir.invoke(%s missing %s)" % (m2.group(1), m2.group(2))
+                elif site.startswith("traverse_ir."):
+                    spec = [x for x in m if x[0] not in ("traverse_ir", "simple_memoizer")]
+                    site = "%s.%s" % spec[-1] if spec else site
                 et = last.split(":")[0].split(".")[-1] if last else "rc%d" % r.returncode
                 if et == "UnicodeDecodeError" or "codec can't" in last:
                     continue
-                out["viol"].append({"mech": "embossc-traceback:%s@%s" % (et, site),
+                out["viol"].append({"mech": "crash:%s@%s" % (et, site),
                                     "what": "embossc rc=%d: %s" % (r.returncode, last), "files": files, "main": main,
                                     "case": i, "kind": kind})
             elif r.returncode == 0 and not os.path.exists(os.path.join(d, "out", main + ".h")):
